@@ -148,16 +148,16 @@ func exprFP(v ssa.Value, depth int) string {
 		return basicName(x.Type()) + "(" + exprFP(x.X, depth-1) + ")"
 	case *ssa.FieldAddr:
 		if _, f, _ := fieldOf(x); f != nil {
-			return "." + f.Name()
+			return "." + recordedFieldName(f)
 		}
 	case *ssa.Field:
 		if st, isS := x.X.Type().Underlying().(*types.Struct); isS {
-			return "." + st.Field(x.Field).Name()
+			return "." + recordedFieldName(st.Field(x.Field))
 		}
 	case *ssa.Call:
 		name := ""
 		if f := x.Call.StaticCallee(); f != nil {
-			name = f.Name()
+			name = baseName(f)
 		} else if b, isB := x.Call.Value.(*ssa.Builtin); isB {
 			name = b.Name()
 		} else {
@@ -208,7 +208,7 @@ func arithScope(c *Ctx, fn *ssa.Function) bool {
 			}
 		}
 	}
-	switch fn.Name() {
+	switch baseName(fn) {
 	case "asRangeInt", "semCheckMaxElements", "semCheckMinElements", "decimalValueFromString", "FromInt", "FromUint", "pow10", "coalesce",
 		"ParseInt", "ParseDecimal", "NewEnumType", "NewBitfield":
 		return true
@@ -511,7 +511,7 @@ func ruleRangePipe(c *Ctx) []Obligation {
 		var out []*ssa.Call
 		eachInstr(fn, func(in ssa.Instruction) {
 			if call, ok := in.(*ssa.Call); ok {
-				if cal := call.Call.StaticCallee(); cal != nil && cal.Name() == name {
+				if cal := call.Call.StaticCallee(); cal != nil && baseName(cal) == name {
 					out = append(out, call)
 				}
 			}
@@ -731,7 +731,7 @@ func ruleRangeStale(c *Ctx) []Obligation {
 			return
 		}
 		cal := call.Call.StaticCallee()
-		if cal == nil || cal.Name() != "Less" {
+		if cal == nil || baseName(cal) != "Less" {
 			return
 		}
 		h := loopHeaderOf(call.Block())
@@ -1025,7 +1025,7 @@ func ruleEnumSentinel(c *Ctx) []Obligation {
 		okFirst := false
 		eachInstr(sn, func(in ssa.Instruction) {
 			call, ok := in.(*ssa.Call)
-			if !ok || call.Call.StaticCallee() == nil || call.Call.StaticCallee().Name() != "Set" {
+			if !ok || call.Call.StaticCallee() == nil || baseName(call.Call.StaticCallee()) != "Set" {
 				return
 			}
 			if k, okk := constInt(call.Call.Args[2]); okk && k == 0 {
@@ -1056,7 +1056,7 @@ func ruleEnumUse(c *Ctx) []Obligation {
 		hasSet, hasNext := false, false
 		eachInstr(an, func(in ssa.Instruction) {
 			if call, ok := in.(*ssa.Call); ok && call.Call.StaticCallee() != nil {
-				switch call.Call.StaticCallee().Name() {
+				switch baseName(call.Call.StaticCallee()) {
 				case "Set":
 					hasSet = true
 				case "SetNext":
@@ -1079,7 +1079,7 @@ func ruleEnumUse(c *Ctx) []Obligation {
 		if !ok || call.Call.StaticCallee() == nil {
 			return
 		}
-		nm := call.Call.StaticCallee().Name()
+		nm := baseName(call.Call.StaticCallee())
 		if nm != "Set" && nm != "SetNext" {
 			return
 		}
